@@ -127,8 +127,33 @@ crate::harnesses! {
         cover(mant == 125 && max == 2);
     }
 
+    /// positional writers (positive and negative exponent) with rounding, padding and trimming on 1-2 digit mantissas (the every-change subset of emit_positional_small).
+    /// @prop C14 C08 C09
+    /// @feat default radix_format
+    /// @bound mantissa < 100 (no trailing zero), -2 <= sci_exp <= 2, max/min significant digits 0..=3, both round modes, trim on/off
+    /// @fn lexical-write-float::algorithm::write_float_positive_exponent
+    /// @fn lexical-write-float::algorithm::write_float_negative_exponent
+    /// @fn lexical-write-float::shared::min_exact_digits
+    /// @timeout 1200
+    #[cfg_attr(kani, kani::unwind(10))]
+    fn emit_positional_tiny() {
+        let mant: u64 = any();
+        let sci: i32 = any();
+        let max: usize = any();
+        let min: usize = any();
+        let truncate: bool = any();
+        let trim: bool = any();
+        assume(mant >= 1 && mant < 100 && mant % 10 != 0 && sci >= -2 && sci <= 2 && max <= 3 && min <= 3);
+        assume(max == 0 || min == 0 || min <= max);
+        let kind = if sci >= 0 { 1 } else { 2 };
+        let r = cmp_emit(kind, mant, sci, if max == 0 { None } else { Some(max) }, if min == 0 { None } else { Some(min) }, truncate, trim);
+        vcheck!(r.is_ok(), "positional output re-reads to the rounded digits, with padding / trimming as configured");
+        cover(trim && sci >= 0);
+    }
+
     /// positional writers (positive and negative exponent) with rounding, padding and trimming on 1-3 digit mantissas.
     /// @prop C14 C08 C09
+    /// @tier thorough
     /// @feat default radix_format
     /// @bound mantissa < 1000 (no trailing zero), -3 <= sci_exp <= 3, max/min significant digits 0..=4, both round modes, trim on/off
     /// @fn lexical-write-float::algorithm::write_float_positive_exponent
